@@ -167,6 +167,8 @@ var (
 		// more than six decimals next to values with another number of integer digits
 		10.5, 2.7654321, 2.1234567, 10.25, 123.4567891, 3, 99.99999999, 100.0000001}
 	// the same digits as int64 and as text, texts that differ in outer white space or in leading zeros
+	// extremes of int64: differences overflow
+	intsExtreme = []int64{math.MinInt64, math.MinInt64 + 1, -4611686018427387904, -1, 0, 1, 4611686018427387904, math.MaxInt64 - 1, math.MaxInt64}
 	digitTexts = []string{"5", "05", "5 ", " 5", "10", "-3"}
 	digitInts  = []int64{5, 10, -3}
 	strsD12 = []string{"a", "b", "ab", "abc", "u", "t", "x", "k1", "k2"}
@@ -180,7 +182,7 @@ func pickS(r *rand.Rand, a []string) string   { return a[r.Intn(len(a))] }
 // column kinds the generator knows; "D" variants stay inside the comparable domain D12
 var colKindsD12 = []string{"intD", "floatD", "textD", "timeD", "node", "pred", "strD", "bool"}
 var colKindsAll = []string{"intD", "floatD", "textD", "timeD", "node", "pred", "strD", "bool",
-	"int", "float", "text", "time", "str", "blob", "null", "tpred", "floatN", "digits", "floatN", "digitsT"}
+	"int", "float", "text", "time", "str", "blob", "null", "tpred", "floatN", "digits", "floatN", "digitsT", "intX", "intX"}
 
 func genCell(r *rand.Rand, kind string) *table.Cell {
 	switch kind {
@@ -198,6 +200,8 @@ func genCell(r *rand.Rand, kind string) *table.Cell {
 			return &table.Cell{L: mustLit(literal.Float64, pickF(r, floatsOut))}
 		}
 		return &table.Cell{L: mustLit(literal.Float64, pickF(r, floatsD12))}
+	case "intX":
+		return &table.Cell{L: mustLit(literal.Int64, pickI(r, intsExtreme))}
 	case "floatN":
 		return &table.Cell{L: mustLit(literal.Float64, pickF(r, floatsNear))}
 	case "digits": // int64 and text literals with the same digits in one column
